@@ -237,6 +237,10 @@ def _havoc_path(eng, env, path):
     for a in parts[1:-1]:
         o = o.attrs[a]
     a = parts[-1]
+    if a == "<store>":
+        if getattr(o, "store", None) is not None:
+            eng.havoc_object(o.store, parts[0] + "_store")
+        return
     if a not in o.attrs:
         return
     v = o.attrs[a]
@@ -259,6 +263,8 @@ def _path_keys(eng, env, path):
     for a in parts[1:-1]:
         o = o.attrs[a]
     a = parts[-1]
+    if a == "<store>":
+        return {id(o.store)} if getattr(o, "store", None) is not None else set()
     keys = {(id(o), a)}
     if a in o.attrs:
         keys |= set(eng.snapshot([o.attrs[a]]).keys())
